@@ -70,7 +70,13 @@ def handle (op : String) (args : List String) (impl : String) : String :=
     | some r =>
       let c := r.cfg
       let label := s!"{historyLabel args}-{compName c.compression}-{if usesLargeFiles c then "large" else "std"}-n{min c.files.length 3}-{if normalised c then "norm" else "odd"}"
-      if !impl.startsWith "ok " then answer "ok" "dontcare" ("not-emitted-" ++ label)
+      -- `feat=nobz`: rpm-rs built without bzip2 support refuses that type (`UnsupportedCompressorType`); were a
+      -- package emitted nevertheless, the validator below judges it like any other
+      let nobz := kv args "feat" == some "nobz"
+      let refused := nobz && (match c.compression with | .bzip2 _ => true | _ => false)
+      let label := if nobz then "nobz-" ++ label else label
+      if !impl.startsWith "ok " then answer (if refused then "err" else "ok") "dontcare" ("not-emitted-" ++ label)
+      else if refused then answer "err" (judge false ((implField impl "pkg").getD "") ((implField impl "arch").getD "")) ("emitted-though-unsupported-" ++ label)
       else answer "*" (judge false ((implField impl "pkg").getD "") ((implField impl "arch").getD "")) label
 
 end RpmVerif.Driver.C09
